@@ -2,7 +2,15 @@ import AnySyncModel.Tree.Model
 import AnySyncModel.Tree.Lemmas
 /-!
 C06 - change order is a function of the change set; incremental equals rebuilt.
-Model: `AnySync.Tree` (`Tree/Model.lean`). Only property theorems and their non-vacuity examples here.
+
+Model: `AnySync.Tree` (`Tree/Model.lean`): `children` (= `Change.Next`, sorted by id), `iter` (= `topSort` +
+reversed walk), `add` (= `Tree.Add` with wait list and Append/Rebuild verdict), `reduce`, `storeInsert`.
+
+Vocabulary (`Tree/Lemmas.lean`): `WFAtt att` - `att` is an attachment list (unique ids, no change names a
+later-attached change as previous id; this is what `Tree.attach` maintains); `Desc ch x y` - `y` is reachable
+from `x` along `Next`.
+
+Only property theorems and their non-vacuity examples in this file.
 -/
 namespace AnySync.Props.C06
 open AnySync.Tree
@@ -17,5 +25,42 @@ example : iter 1 [⟨1, [], 0, true⟩, ⟨2, [1], 1, false⟩, ⟨3, [1], 1, fa
         = iter 1 [⟨4, [2, 3], 1, false⟩, ⟨3, [1], 1, false⟩, ⟨1, [], 0, true⟩, ⟨2, [1], 1, false⟩] ∧
           iter 1 [⟨1, [], 0, true⟩, ⟨2, [1], 1, false⟩, ⟨3, [1], 1, false⟩, ⟨4, [2, 3], 1, false⟩] = [1, 2, 3, 4] := by
   decide
+
+/-- **iter_topological**: in the presented sequence of a well-formed tree there are no repetitions and every
+change comes after each of its parents that is presented (equivalently: after all its attached parents
+above the root). -/
+theorem iter_topological (root : Nat) (att : List Change) (hwf : WFAtt att) :
+    (iter root att).Nodup ∧
+    ∀ c ∈ att, ∀ p ∈ c.prevs, ∀ l1 l2, iter root att = l1 ++ p :: l2 → c.id ∈ l2 := by
+  obtain ⟨rk, h1, h2, _⟩ := wf_rank hwf
+  have hx := visit_ext (children att) rk h1 (att.length + 1) root [] (by have := h2 root; omega) (good_nil _)
+  refine ⟨hx.good.1, ?_⟩
+  intro c hc p hp l1 l2 hdec
+  exact hx.good.2 l1 p l2 hdec c.id (mem_children.mpr ⟨c, hc, rfl, hp⟩)
+
+/-- … and it presents exactly the root and what is reachable from it along `Next` -/
+theorem iter_reachable (root : Nat) (att : List Change) (hwf : WFAtt att) :
+    root ∈ iter root att ∧ (∀ y ∈ iter root att, Desc (children att) root y) ∧
+    (∀ x ∈ iter root att, ∀ c ∈ children att x, c ∈ iter root att) := by
+  obtain ⟨rk, h1, h2, _⟩ := wf_rank hwf
+  have hx := visit_ext (children att) rk h1 (att.length + 1) root [] (by have := h2 root; omega) (good_nil _)
+  refine ⟨hx.mem root (by simp), ?_, hx.good.closed⟩
+  intro y hy
+  obtain ⟨pre, hp, hd⟩ := hx.pre
+  have : y ∈ pre := by
+    have : iter root att = pre := by simpa [iter, rpo] using hp
+    rw [← this]; exact hy
+  obtain ⟨x, hx1, hx2⟩ := hd y this
+  have : x = root := by simpa using hx1
+  exact this ▸ hx2
+
+/-- non-vacuity: the diamond is a well-formed attachment list -/
+example : WFAtt [⟨1, [], 0, true⟩, ⟨2, [1], 1, false⟩, ⟨3, [1], 1, false⟩, ⟨4, [2, 3], 1, false⟩] := by
+  have h0 := WFAtt.nil
+  have h1 := @WFAtt.snoc [] ⟨1, [], 0, true⟩ h0 (by simp) (by simp) (by simp)
+  have h2 := @WFAtt.snoc _ ⟨2, [1], 1, false⟩ h1 (by simp) (by simp) (by simp)
+  have h3 := @WFAtt.snoc _ ⟨3, [1], 1, false⟩ h2 (by simp) (by simp) (by simp)
+  have h4 := @WFAtt.snoc _ ⟨4, [2, 3], 1, false⟩ h3 (by simp) (by simp) (by simp)
+  simpa using h4
 
 end AnySync.Props.C06
